@@ -21,6 +21,30 @@ thread_local! {
     static LAST_PANIC: RefCell<String> = const { RefCell::new(String::new()) };
     static LIVE_AT_FAULT: Cell<i64> = const { Cell::new(-1) };
     static CATCH_DEPTH: Cell<u32> = const { Cell::new(0) };
+    static ZBOMB: Cell<i64> = const { Cell::new(-1) };
+}
+
+/// Arm a bomb for zero-sized tracked elements (they carry no identity): the j-th
+/// (0-based) zero-sized drop from now on panics, once.
+pub fn arm_zst_bomb(j: usize) {
+    ZBOMB.with(|c| c.set(j as i64));
+}
+/// Called by zero-sized tracked elements at the end of their drop bookkeeping.
+pub fn on_zst_drop() {
+    let v = ZBOMB.try_with(|c| c.get()).unwrap_or(-1);
+    if v < 0 {
+        return;
+    }
+    if v == 0 {
+        let _ = ZBOMB.try_with(|c| c.set(-1));
+        if !std::thread::panicking() {
+            let _ = BOMB_FIRED.try_with(|c| c.set(true));
+            snapshot_live();
+            panic::panic_any(Injected("zst-drop", 0));
+        }
+    } else {
+        let _ = ZBOMB.try_with(|c| c.set(v - 1));
+    }
 }
 
 /// Number of tracked elements (identity + zero-sized) that were live when the
@@ -69,6 +93,7 @@ pub fn reset() {
     DEFAULT_FUSE.with(|c| c.set(-1));
     DEFAULT_CALLS.with(|c| c.set(0));
     BOMB.with(|c| c.set(0));
+    ZBOMB.with(|c| c.set(-1));
     BOMB_FIRED.with(|c| c.set(false));
     INJECT_FIRED.with(|c| c.set(false));
     LIVE_AT_FAULT.with(|c| c.set(-1));
